@@ -289,6 +289,7 @@ def ecef2geodetic(x: float, y: float, z: float, a: float = EARTH_EQUATOR_RADIUS,
         N = a / np.sqrt(1 - e2 * sin_lat**2)    # Radius of curvature in the vertical prime
         lat_old = lat
         lat = np.arctan2(z + e2 * N * sin_lat, p)
+    N = a / np.sqrt(1 - e2 * np.sin(lat)**2)    # Also when the loop is not entered (point on the equator)
     h = p / np.cos(lat) - N
     # Convert to degrees
     lat *= RAD2DEG
